@@ -233,7 +233,16 @@ def main():
       qt.load_quantization_recipe(copy.deepcopy(ship[desc]))
     else:
       desc = gr.apply_rules(qt, regex_rules(rng, mb))
-    if not qt.need_calibration:
+    # need_calibration decides whether Quantizer.calibrate() looks at any op at
+    # all: it must agree with what quantization will ask statistics for
+    expect_cal = gr.needs_calibration(json.loads(json.dumps(qt.get_quantization_recipe())))
+    if bool(qt.need_calibration) != expect_cal:
+      viol.append({'key': 'C10:need-calibration-disagrees', 'what':
+                   f'Quantizer.need_calibration = {qt.need_calibration} but the recipe '
+                   f'{"has" if expect_cal else "has no"} static-range (INTEGER compute + activation config) rule: '
+                   'calibrate() and quantize() do not agree on which ops are quantized',
+                   'input': {'recipe': desc, 'model_hex': mb.hex() if len(mb) < 20000 else None}})
+    if not expect_cal:
       dist['no_calibration_needed'] += 1
       continue
     rm = qt._recipe_manager  # pylint: disable=protected-access
